@@ -131,6 +131,61 @@ theorem zip5_append {β γ δ ε ζ} (a₁ a₂ : List β) (b₁ b₂ : List γ)
 theorem AllLen.eq {β} {n : Nat} {xs : List (List β)} (h : AllLen n xs) {s t : List β} (hs : s ∈ xs) (ht : t ∈ xs) :
     s.length = t.length := by rw [h s hs, h t ht]
 
+/-! ### lengths of zips of equally long series -/
+
+theorem zip3_length {β γ δ} (a : List β) (b : List γ) (c : List δ) (h₁ : a.length = b.length) (h₂ : a.length = c.length) :
+    (zip3 a b c).length = a.length := by
+  induction a generalizing b c with
+  | nil => cases b <;> cases c <;> simp_all [zip3]
+  | cons x xs ih =>
+    cases b with
+    | nil => simp at h₁
+    | cons y ys =>
+      cases c with
+      | nil => simp at h₂
+      | cons z zs => simp only [zip3, List.length_cons, ih ys zs (by simpa using h₁) (by simpa using h₂)]
+
+theorem zip4_length {β γ δ ε} (a : List β) (b : List γ) (c : List δ) (d : List ε)
+    (h₁ : a.length = b.length) (h₂ : a.length = c.length) (h₃ : a.length = d.length) :
+    (zip4 a b c d).length = a.length := by
+  induction a generalizing b c d with
+  | nil => cases b <;> cases c <;> cases d <;> simp_all [zip4]
+  | cons x xs ih =>
+    cases b with
+    | nil => simp at h₁
+    | cons y ys =>
+      cases c with
+      | nil => simp at h₂
+      | cons z zs =>
+        cases d with
+        | nil => simp at h₃
+        | cons w ws =>
+          simp only [zip4, List.length_cons, ih ys zs ws (by simpa using h₁) (by simpa using h₂) (by simpa using h₃)]
+
+theorem zip5_length {β γ δ ε ζ} (a : List β) (b : List γ) (c : List δ) (d : List ε) (e : List ζ)
+    (h₁ : a.length = b.length) (h₂ : a.length = c.length) (h₃ : a.length = d.length) (h₄ : a.length = e.length) :
+    (zip5 a b c d e).length = a.length := by
+  induction a generalizing b c d e with
+  | nil => cases b <;> cases c <;> cases d <;> cases e <;> simp_all [zip5]
+  | cons x xs ih =>
+    cases b with
+    | nil => simp at h₁
+    | cons y ys =>
+      cases c with
+      | nil => simp at h₂
+      | cons z zs =>
+        cases d with
+        | nil => simp at h₃
+        | cons w ws =>
+          cases e with
+          | nil => simp at h₄
+          | cons v vs =>
+            simp only [zip5, List.length_cons,
+              ih ys zs ws vs (by simpa using h₁) (by simpa using h₂) (by simpa using h₃) (by simpa using h₄)]
+
+theorem zip_length_eq {β γ} (a : List β) (b : List γ) (h : a.length = b.length) : (a.zip b).length = a.length := by
+  simp [List.length_zip, h]
+
 /-- `scan` over a concatenation, in the form used by the per-model proofs -/
 theorem scan_append' {σ ι ο : Type} (step : σ → ι → σ × ο) (s : σ) (a b : List ι) :
     (scan step s (a ++ b)).1 = (scan step (scan step s a).1 b).1 ∧
